@@ -17,8 +17,15 @@ import (
 // (the specs built by the harnesses are flat, local and need no preprocessing - natively the real
 // load + minimal flatten runs on a temporary file and the native validation of every path checks
 // that this stub is faithful). Everything newAppGenerator / analyzeSpec do after loading is executed.
-func vAppGenerator(sw *spec.Swagger) *appGenerator {
+func vAppGenerator(sw *spec.Swagger) *appGenerator { return vAppGeneratorAt(sw, "") }
+
+// vAppGeneratorAt: with a target directory the options are fully defaulted (sections, templates), as
+// GenerateServer does, so that the generator can actually render (native replay of rendering harnesses)
+func vAppGeneratorAt(sw *spec.Swagger, target string) *appGenerator {
 	opts := vGenOpts()
+	if target != "" {
+		opts.Target = target
+	}
 	opts.IncludeHandler, opts.IncludeParameters, opts.IncludeResponses, opts.IncludeURLBuilder = true, true, true, true
 	opts.IncludeSupport = true
 	opts.APIPackage, opts.ServerPackage, opts.ClientPackage, opts.ModelPackage = "operations", "restapi", "client", "models"
@@ -44,6 +51,11 @@ func vAppGenerator(sw *spec.Swagger) *appGenerator {
 		}
 		opts.FlattenOpts = &analysis.FlattenOpts{Minimal: true}
 		opts.templates = templates
+		if target != "" {
+			if err := opts.EnsureDefaults(); err != nil {
+				panic(err)
+			}
+		}
 	}
 	ag, err := newAppGenerator("app", nil, nil, opts)
 	vAssert(err == nil, "newAppGenerator failed")
